@@ -202,6 +202,10 @@ def compare_export(out_path, src, sel_idx, feats, filtered, case, tags):
             # exactly the source's lines / columns
             for name, lines in src.logs.items():
                 cands = [k for k in h5.get("logs", {}) if name in k]
+                if case.get("prefix") is not None:
+                    # the caller chose the prefix: exactly that name
+                    cands = [k for k in cands
+                             if k == case["prefix"] + name]
                 got = [[li.decode("utf-8") if isinstance(li, bytes) else li
                         for li in h5["logs"][k][:]] for k in cands]
                 if lines not in got:
@@ -209,6 +213,9 @@ def compare_export(out_path, src, sel_idx, feats, filtered, case, tags):
                         f"does not contain {lines}")
             for name, t in src.tables.items():
                 cands = [k for k in h5.get("tables", {}) if name in k]
+                if case.get("prefix") is not None:
+                    cands = [k for k in cands
+                             if k == case["prefix"] + name]
                 if not any(
                         h5["tables"][k].dtype.names == t.dtype.names and all(
                             gen.arrays_equal(np.ravel(h5["tables"][k][c]),
@@ -260,11 +267,12 @@ def _case(args):
         ds = src.ds
         feats_all = [f for f in ALLF if f in ds]
 
-        def do(mask, feats, filtered, logs=False, tiny=True):
+        def do(mask, feats, filtered, logs=False, tiny=True, prefix=None):
             mask = np.asarray(mask, bool)
             case = {"kind": kind, "n": n, "seed": seed, "mode": "single",
                     "mask": mask.astype(int).tolist(), "feats": feats,
-                    "filtered": filtered, "logs": logs, "tiny": tiny}
+                    "filtered": filtered, "logs": logs, "tiny": tiny,
+                    "prefix": prefix}
             ds.filter.manual[:] = mask
             ds.apply_filter()
             # a dataset somebody has looked at (lazy caches filled)
@@ -282,8 +290,10 @@ def _case(args):
                 outp.unlink()
             try:
                 with gen.chunk_bytes(100 if tiny else 1024 ** 2):
+                    kwp = {} if prefix is None else {"meta_prefix": prefix}
                     ds.export.hdf5(outp, features=list(feats),
-                                   filtered=filtered, logs=logs, tables=logs)
+                                   filtered=filtered, logs=logs, tables=logs,
+                                   **kwp)
                 vs = compare_export(outp, src, sel, feats, filtered, case,
                                     tags)
             except Exception as e:
@@ -316,6 +326,9 @@ def _case(args):
             do(fam[3], pool + [pool[0]], True)          # duplicate name
             do(fam[3], feats_all, True, logs=True)
             do(fam[3], feats_all, True, logs=True, tiny=False)
+            # an explicitly requested prefix for the carried-over items
+            do(fam[3], feats_all, True, logs=True, prefix="")
+            do(fam[3], feats_all, False, logs=True, prefix="orig-")
             do(fam[0], feats_all, False, logs=True, tiny=False)
         elif mode == "tsv":
             out.extend(_tsv(src, n, scratch, kind))
@@ -666,9 +679,11 @@ def replay(case, ctx):
                 "chunk_cross": bool(len(sel) >= 10 and case["tiny"])}
         try:
             with gen.chunk_bytes(100 if case["tiny"] else 1024 ** 2):
+                kwp = {} if case.get("prefix") is None else {
+                    "meta_prefix": case["prefix"]}
                 ds.export.hdf5(outp, features=list(case["feats"]),
                                filtered=case["filtered"], logs=case["logs"],
-                               tables=case["logs"])
+                               tables=case["logs"], **kwp)
             return compare_export(outp, src, sel, case["feats"],
                                   case["filtered"], case, tags)
         except Exception as e:
